@@ -44,6 +44,9 @@ type Solver struct {
 	TimeoutMS int
 	LastErr   string
 	ValTime   time.Duration
+	AfterFlush bool
+	FlushTime time.Duration
+	FlushN int
 }
 
 func NewSolver(kind string, st *Store, timeoutMS int) (*Solver, error) {
@@ -140,6 +143,9 @@ func (s *Solver) declareUF(d *UFDef) {
 	}
 	if d.Eager != "" {
 		s.send(fmt.Sprintf("(define-fun %s ((x %s)) %s %s)", d.Name, ins[0], d.Out, d.Eager))
+	} else if d.EagerLo != "" {
+		s.send(fmt.Sprintf("(declare-fun %s_hi (%s) %s)", d.Name, strings.Join(ins, " "), d.Out))
+		s.send(fmt.Sprintf("(define-fun %s ((x %s)) %s (ite (bvule x #x000000ff) %s (%s_hi x)))", d.Name, ins[0], d.Out, d.EagerLo, d.Name))
 	} else {
 		s.send(fmt.Sprintf("(declare-fun %s (%s) %s)", d.Name, strings.Join(ins, " "), d.Out))
 	}
@@ -250,10 +256,18 @@ func (s *Solver) readLine() (string, error) {
 	return strings.TrimSpace(line), err
 }
 
+// CheckAssuming runs check-sat-assuming on one Bool term (defined at the current level).
+func (s *Solver) CheckAssuming(t *Term) Result {
+	n := s.name(t)
+	return s.check("(check-sat-assuming (" + n + "))")
+}
+
 // Check runs check-sat in the current context.
-func (s *Solver) Check() Result {
+func (s *Solver) Check() Result { return s.check("(check-sat)") }
+
+func (s *Solver) check(cmd string) Result {
 	t0 := time.Now()
-	s.send("(check-sat)")
+	s.send(cmd)
 	s.in.Flush()
 	s.Queries++
 	res := Unknown
@@ -296,6 +310,11 @@ func (s *Solver) Check() Result {
 		fmt.Fprintln(s.Log, "; <- "+res.String())
 	}
 	s.Time += time.Since(t0)
+	if s.AfterFlush {
+		s.FlushTime += time.Since(t0)
+		s.FlushN++
+		s.AfterFlush = false
+	}
 	switch res {
 	case Sat:
 		s.SatN++
